@@ -30,7 +30,7 @@ ASSUMPTIONS = [
     'completeness is only demanded for names imported directly from the defining module and for paths through a module alias',
 ]
 FLOOR = {'quick': 150, 'thorough': 2000}
-SPACE = {'quick': '51 statement templates x 9 consumer scopes (singles)', 'thorough': 'all ordered pairs of statements x 9 consumer scopes'}
+SPACE = {'quick': '54 statement templates x 9 consumer scopes (singles)', 'thorough': 'all ordered pairs of statements x 9 consumer scopes'}
 JOB_TIMEOUT = 1500
 
 
@@ -71,6 +71,8 @@ def statements(pa: str, qa: str) -> List[str]:
         f'from {pa}.b import Kb, fb\n__all__ = ["Kb", "fb"]', f'from {pa}.b import *\n__all__ = ["Kb"]', f'from {pa}.b import Kb as KbAlias\n__all__ = ["KbAlias"]',
         f'from {pa}.und import *', f'from {pa}.und import *\n__all__ = ["Pub", "_make"]', f'from {pa}.und import *\nclass Motor(_Eng):\n    "ID:Motor"', f'import {pa}.und as um0',
         f'from {pa}.und import _make, hidden', f'from {pa}.und import _Eng as E0, Pub',
+        # a name bound by an import that is also the name of a sub-module / sub-package of the scope's package
+        f'from {pa}.c import fc as b', f'from {pa}.c import Kc as s', f'from {pa}.c import fc as d',     # (a LATER import of that sub-module re-binds the name in CPython: not generated, the order of import events is dynamic)
         f'from {pa}.emp import *', f'from {pa}.c import Widget0, Page0 as P0', f'import {pa}.c as dm', f'from {pa}.c import Widget0\nclass Mine(Widget0):\n    "ID:Mine"',
     ]
 
@@ -289,8 +291,10 @@ def run_job(job: Any, tier: str) -> Dict[str, Any]:
             run_case(f'{job[1]}x{i}', job[1], [i], res)
     else:
         _, sc, i = job
+        # a name that shadows a sub-module is judged alone: any other import of that sub-module re-binds it dynamically
+        shadow = {k for k, st in enumerate(statements('PA', 'QA')) if st.endswith((' as b', ' as s', ' as d'))}
         for j in range(n):
-            if j != i:
+            if j != i and not ({i, j} & shadow):
                 run_case(f'{sc}x{i}x{j}', sc, [i, j], res)
     return res
 
